@@ -34,7 +34,7 @@ fn gen_strings(rng: &mut Rng, n: usize, alpha: &[char]) -> Vec<String> {
     // a fixed corpus first: witnesses of past findings and grammar corner cases
     for s in ["", "C", "CC", "C(C)C", "C.C", "C1CC1", "C%12CC%12", "[13CH4]", "[C@@H](F)(Cl)Br", "[*@TB0]", "[*@TBx", "[G]", "[C+10]", "[C-10]", "[Cs]", "[C+5]", "[*@TB20]", "[*@OH3]", "[*@OH14]",
               "C11", "C1C1", "C12CC12", "C[Pt@SP1H](C)(C)C", "C1C[C@@]1(F)Cl", "C(", "C(C", "C()", "(C)", "C=", "C=1", "C.", "C..C", "C(.C)C", "C(=C)(#N)C", "C%1", "C%", "[", "[C", "[C:", "[C:x]", "[1000U]", "[*:1000]",
-              "C/C=C\\C", "F/C=C/F", "C1=CC=CC=C1", "c1ccccc1", "[nH]1cccc1", "C\u{e9}C", "\u{e9}", "[\u{e9}]", "C(C(C(C)))C", "C1.C1", "C1(C)", "*", "[*]", "[*H]", "[HH1]", "Cl", "Br", "B", "Bx", "At", "Ts", "Tx", "A"] { v.push(s.to_string()) }
+              "C/C=C\\C", "F/C=C/F", "C1=CC=CC=C1", "c1ccccc1", "[nH]1cccc1", "C\u{e9}C", "\u{e9}", "[\u{e9}]", "[\u{b2}H]", "[C:\u{663}]", "[\u{ff11}\u{ff13}C]", "C[N:\u{bd}]", "[C:1\u{ff12}]", "C%\u{663}1", "C\u{b2}", "[C@TB\u{b2}]", "[C+\u{663}]", "[CH\u{b2}]", "C(.O)N", "C(.O)1CC1", "CC(C(.[Na+])O)=O", "C(C(C(C)))C", "C1.C1", "C1(C)", "*", "[*]", "[*H]", "[HH1]", "Cl", "Br", "B", "Bx", "At", "Ts", "Tx", "A"] { v.push(s.to_string()) }
     while v.len() < n {
         let n = rng.below(14); let h = if rng.chance(1, 2) { gen_history(rng, n) } else { gen_history_rings(rng, n) };
         let mut w = Writer::new(); replay(&h, &mut w); let text = w.write();
@@ -151,7 +151,7 @@ fn main() {
     std::panic::set_hook(Box::new(|_| {}));
     let args: Vec<String> = std::env::args().collect();
     let (suite, count, outdir, shards) = (args[1].as_str(), args[2].parse::<usize>().unwrap(), args[3].clone(), args[4].parse::<usize>().unwrap());
-    let alpha: Vec<char> = std::env::var("VERIF_ALPHABET").unwrap_or("()*+-.0123456789:=@BCFHNOPS[]%clnos#/\\$".into()).chars().chain("\u{e9}~ ".chars()).collect();
+    let alpha: Vec<char> = std::env::var("VERIF_ALPHABET").unwrap_or("()*+-.0123456789:=@BCFHNOPS[]%clnos#/\\$".into()).chars().chain("\u{e9}~ \u{b2}\u{663}\u{ff12}".chars()).collect();
     let mut rng = Rng::from_env(suite.bytes().fold(7u64, |a, b| a.wrapping_mul(131).wrapping_add(b as u64)));
     let mut cases: Vec<String> = vec![];
     let mut dist = std::collections::BTreeMap::<String, usize>::new();
